@@ -210,16 +210,17 @@ def exec_both(pid, driver, cases, work, tag, timeout):
     with open(cf, "w") as f:
         f.write(fmt_cases(cases))
     ff = os.path.join(work, f"{tag}.fails")
+    af = os.path.join(work, f"{tag}.annot")   # case file + the runner's annotations = model driver input
     env = dict(GOENV, GOMEMLIMIT=os.environ.get("GOMEMLIMIT", "12GiB"))
     with open(cf) as fin:
         try:
-            i = subprocess.run([os.path.join(HARN, "bin", "vh"), pid, "exec", "--fails", ff], stdin=fin,
+            i = subprocess.run([os.path.join(HARN, "bin", "vh"), pid, "exec", "--fails", ff, "--annot", af], stdin=fin,
                                stdout=subprocess.PIPE, stderr=subprocess.PIPE, text=True, timeout=timeout, env=env)
         except subprocess.TimeoutExpired:
             return None, None, [], "impl timeout"
     if i.returncode != 0:
         return None, None, [], "impl harness exited %d: %s" % (i.returncode, i.stderr[-1500:])
-    with open(cf) as fin:
+    with open(af if os.path.exists(af) else cf) as fin:
         try:
             m = subprocess.run([os.path.join(LEAN, ".lake", "build", "bin", "aurora-driver"), driver], stdin=fin,
                                stdout=subprocess.PIPE, stderr=subprocess.PIPE, text=True, timeout=timeout)
